@@ -880,7 +880,18 @@ func rulesC19(c *Ctx) {
 				seq = append(seq, "<payload>")
 			}
 		}
-		c.Check(strings.Join(seq, "|") == "data: |<payload>|\n\n", "writeEvent:frame", we, nil, "writeEvent emits \"data: \" + payload + blank line (%q)", seq)
+		// (other fields — event, id, retry — may be written in front of it in any fashion; the record ends with the data line)
+		tail := seq
+		if len(tail) > 3 {
+			tail = tail[len(tail)-3:]
+		}
+		nData := 0
+		for _, x := range seq {
+			if x == "data: " {
+				nData++
+			}
+		}
+		c.Check(strings.Join(tail, "|") == "data: |<payload>|\n\n" && nData == 1, "writeEvent:frame", we, nil, "writeEvent emits \"data: \" + payload + blank line (%q)", seq)
 		se := c.Fn(pM, "", "scanEvents")
 		bounded := ""
 		ast.Inspect(se.Body, func(n ast.Node) bool {
